@@ -46,10 +46,10 @@ THOROUGH = {"chunks": 16, "ops": 9000}
 RULE = ("(value, serialiser); non-trivial = a prefixed or compound unit, a quantity over one, or an object serialised before a later "
         "alias/history; distinct by op text")
 
-UNIT_HOWS = ["pickle2", "pickle3", "pickle4", "pickle5", "copy", "deepcopy", "json", "jsoninstalled"]
+UNIT_HOWS = ["pickle2", "pickle3", "pickle4", "pickle5", "copy", "deepcopy", "json", "jsoninstalled", "pydantic", "pydanticname"]
 Q_SAME = ["pickle2", "pickle4", "pickle5", "copy", "deepcopy"]
 Q_TEXT = ["json", "jsoninstalled", "pydantic", "composite"]
-N_HOWS = ["pickle2", "pickle5", "copy", "deepcopy", "json", "jsoninstalled", "pydantic"]
+N_HOWS = ["pickle2", "pickle5", "copy", "deepcopy", "json", "jsoninstalled", "pydantic", "pydanticname"]
 
 
 class Context(ConvContext):
